@@ -166,7 +166,7 @@ def prism():
     })
 
 
-def ent_desc():
+def ent_desc(only=None):
     def for_class(cls):
         is_brush, keys = CLASSES[cls]
         kvs = []
@@ -207,6 +207,8 @@ def ent_desc():
             'hidden': st.sampled_from([False, False, False, True]),
             'solids': st.lists(prism(), min_size=1, max_size=2) if is_brush else st.just([]),
         })
+    if only is not None:
+        return for_class(only)
     return st.sampled_from(CLASS_NAMES).flatmap(for_class)
 
 
@@ -223,12 +225,26 @@ def nested_inst():
     })
 
 
+def _with_lead(t):
+    ents = list(t['ents'])
+    lead, tail = t.pop('lead_overlay'), t.pop('tail_brush_ent')
+    if lead is not None:
+        ents.insert(0, lead)
+    if tail is not None:
+        ents.append(tail)
+    t['ents'] = ents
+    return t
+
+
 def template():
     return st.fixed_dictionaries({
         'brushes': st.lists(prism(), max_size=3),
         'dsolids': st.lists(vmfgen.solid_descs(DISP_CFG).map(_sane_solid), max_size=2),
         'ents': st.lists(st.one_of(ent_desc(), ent_desc(), ent_desc(), nested_inst()), max_size=5),
-    })
+        # often: an overlay listed first whose side list points at faces of brush entities that come later in the file
+        'lead_overlay': st.one_of(st.none(), st.none(), ent_desc('info_overlay')),
+        'tail_brush_ent': st.one_of(st.none(), st.none(), ent_desc('func_brush'), ent_desc('trigger_multiple')),
+    }).map(_with_lead)
 
 
 def op():
@@ -641,6 +657,13 @@ def execute(desc, ctx):
         ctx.label('displacement')
     if any(e['cls'] == 'func_instance' and e['fixups'] for t in desc['templates'] for e in t['ents']):
         ctx.label('nested_instance_with_fixups')
+    for t in desc['templates']:
+        seen_brush_ent = False
+        for e in reversed(t['ents']):
+            if e.get('solids'):
+                seen_brush_ent = True
+            elif seen_brush_ent and any(k[0] == 'sides' and k[2] for k in e.get('keys', [])):
+                ctx.label('sidelist_before_later_brush_entity')
     if any(e.get('extra') for t in desc['templates'] for e in t['ents']) and max(used.values()) >= 2:
         ctx.label('unknown_key_collapsed_twice')
     for t in desc['templates']:
@@ -802,7 +825,7 @@ def _has_cycle(desc) -> bool:
 SUBCHECKS = [
     Sub('collapse_one', execute, strategy=strategy, quick=800, quick_shards=8, thorough=60000, floor=30,
         must_hit=('arbitrary_rotation', 'repeat_collapse', 'nested_instance_with_fixups', 'displacement',
-                  'unknown_key_collapsed_twice', 'reset_warnings')),
+                  'unknown_key_collapsed_twice', 'reset_warnings', 'sidelist_before_later_brush_entity')),
     Sub('collapse_all', execute_all, strategy=graph_strategy, quick=600, thorough=30000, floor=20,
         must_hit=('cyclic_graph', 'cyclic_mixed_case_classname', 'finishes', 'exceeds_limit')),
 ]
